@@ -344,6 +344,7 @@ def rw_range_contains(tl):
 BINOPS = {"*", "/", "%", "+", "-", "<", ">", "<=", ">=", "==", "!=", "&&", "||", "^", "|", "&", "<<", ">>"}
 MUL = {"*": "mul", "/": "div", "%": "rem"}
 ADD = {"+": "add", "-": "sub"}
+OPASSIGN = {"+=": "add", "-=": "sub", "*=": "mul", "/=": "div", "%=": "rem"}
 SEPARATORS = {";", ",", "=", "=>", ":", "let", "if", "else", "match", "return", "while", "for", "in", "loop",
               "+=", "-=", "*=", "/=", "%=", "^=", "|=", "&=", "<<=", ">>=", "mut", "..", "..=", "break", "->"}
 
@@ -459,6 +460,21 @@ def _rewrite_level(items, ty, counter):
     p = 0
     n = len(items)
     while p < n:
+        if not isinstance(items[p], _Grp) and items[p] in OPASSIGN:
+            r = _parse_operand(items, p + 1)
+            if r is not None and r[1] == "ref" and r[0] < n and items[r[0]] == ";":
+                # statement `LHS op= &RHS ;`  =>  `op_X_assign_T ( & mut LHS , &RHS ) ;`
+                k = len(out)
+                while k > 0 and not (isinstance(out[k - 1], _Grp) and out[k - 1].open == "{") and out[k - 1] != ";":
+                    k -= 1
+                lhs = out[k:]
+                if lhs:
+                    del out[k:]
+                    counter[0] += 1
+                    out += ["op_%s_assign_%s" % (OPASSIGN[items[p]], ty),
+                            _Grp("(", ["&", "mut"] + lhs + [","] + list(r[2]), ")")]
+                    p = r[0]
+                    continue
         r = _parse_operand(items, p)
         if r is None:
             out.append(items[p])
